@@ -2,3 +2,4 @@
 //! Each item is a thin wrapper that calls a private kernel with plain arguments.
 
 pub use crate::config::file_lines::verif_hooks as file_lines;
+pub use crate::formatting::verif_hooks as formatting;
